@@ -135,6 +135,14 @@ def run_history(res, cfg, scratch, rng, hidx, kill_budget):
             if op["op"] not in MUTATORS:
                 s.do(op)
                 continue
+            if rng.random() < 0.4 and s.model.points:
+                # a read that stops early leaves the file position somewhere in the middle
+                s.do({"op": rng.choice(["get", "contains"]), "q": ("cmp", "measurement", (), "==", rng.choice(gen.MEAS))})
+                res.count("early_terminating_reads_before_op")
+            if op["op"] == "insert" and rng.random() < 0.08:
+                # a row longer than the 8 KiB text/binary buffers
+                op["p"]["tags"]["big"] = "x" * rng.choice([9000, 20000, 70000])
+                res.count("rows_longer_than_io_buffer")
             old = [p.copy() for p in s.model.points]
             do_kill = kill_budget[0] > 0 and step >= 2 and rng.random() < 0.35 and sysmon.available()
             pre_bytes = s.file_bytes()
